@@ -2552,3 +2552,66 @@ Proof.
       * change (fired pl ((Ev BSG (w_gt w) [] 0 :: ev0 ++ [Ev ASG (c_start cfg) [] 0]) ++ ev1 ++ ev2) = []).
         rewrite !fired_app, Fs, F1, F2. reflexivity.
 Qed.
+
+(* ================================================================== every before has its after or failed *)
+Definition gsel (k : ekind) (s : sym) : nat := match s with SG k' => if ekind_eqb k' k then 1 else 0 | SN _ _ => 0 end.
+Definition gcnt (k : ekind) (w : list sym) : nat := list_sum (map (gsel k) w).
+
+Lemma gcnt_app k a b : gcnt k (a ++ b) = gcnt k a + gcnt k b.
+Proof. unfold gcnt. rewrite map_app, list_sum_app. reflexivity. Qed.
+
+Definition open_s (a : ast) : list nat := match a with AInStart m _ => [m] | _ => [] end.
+Definition open_e (a : ast) : list nat := match a with AInEval _ i _ => [i] | _ => [] end.
+Definition open_p (a : ast) : list nat := match a with ARollIn _ c _ _ | AStopIn _ c _ _ _ => [pred c] | _ => [] end.
+Definition pre_fail (a : ast) : bool := match a with AFresh | AStarting _ | AInStart _ _ => true | _ => false end.
+Definition gopen_s (a : ast) : nat :=
+  match a with AStarting _ | AInStart _ _ | ARoll _ _ | ARollIn _ _ _ _ | ARollAborted _ _ => 1 | _ => 0 end.
+Definition gopen_e (a : ast) : nat := match a with ACycle _ _ | AInEval _ _ _ => 1 | _ => 0 end.
+Definition gopen_p (a : ast) : nat := match a with AStopping _ _ _ | AStopIn _ _ _ _ _ | AStopFailed _ => 1 | _ => 0 end.
+
+Definition BAL (a : ast) (w : list sym) : Prop :=
+  idxs BSN w = idxs ASN w ++ idxs SNF w ++ open_s a /\
+  (pre_fail a = true -> idxs SNF w = []) /\
+  idxs BEN w = idxs AEN w ++ open_e a /\
+  idxs BPN w = idxs APN w ++ open_p a /\
+  gcnt BSG w = gcnt ASG w + gcnt SGF w + gopen_s a /\
+  gcnt BGE w = gcnt AGE w + gopen_e a /\
+  gcnt BPG w = gcnt APG w + gopen_p a.
+
+Lemma BAL_step a s w : BAL a w -> ast_bad (astep a s) = false -> BAL (astep a s) (w ++ [s]).
+Proof.
+  unfold BAL. intros (H1 & H2 & H3 & H4 & H5 & H6 & H7) Hnb. rewrite !idxs_app, !gcnt_app.
+  unfold gcnt in *.
+  destruct a; destruct s as [k|k j]; destruct k; simpl in Hnb; try discriminate;
+    repeat match goal with
+      | H : context[match ?x with _ => _ end] |- _ =>
+          first [is_var x; destruct x | match x with Nat.eqb ?i ?j => destruct (Nat.eqb_spec i j); subst end
+                | destruct x eqn:?]; simpl in H; try discriminate
+      end;
+    simpl in *; rewrite ?Nat.eqb_refl; simpl;
+    repeat match goal with |- context[if ?b then _ else _] => destruct b eqn:?; simpl end;
+    rewrite ?app_nil_r in *;
+    try (rewrite ?H1, ?H3, ?H4; try rewrite H2 by reflexivity; rewrite ?app_nil_r, <- ?app_assoc; simpl;
+         repeat split; auto; try lia; try discriminate; fail).
+Qed.
+
+Lemma BAL_run w : ast_bad (arun AFresh w) = false -> BAL (arun AFresh w) w.
+Proof.
+  induction w as [|s w IH] using rev_ind; intro H.
+  - simpl. repeat split; auto.
+  - rewrite arun_snoc in *. apply BAL_step; auto. apply IH. destruct (arun AFresh w); auto.
+Qed.
+
+(* when a graph is at rest (never started, started and idle, stopped, or leaked), every "before"
+   notification of that graph and of its nodes has had its "after" or "failed" *)
+Definition ast_rest (a : ast) : bool :=
+  match a with AFresh | AStarted _ | ADone _ | ALeaked _ _ => true | _ => false end.
+
+Lemma word_balanced w : ast_rest (arun AFresh w) = true ->
+  idxs BSN w = idxs ASN w ++ idxs SNF w /\ idxs BEN w = idxs AEN w /\ idxs BPN w = idxs APN w /\
+  gcnt BSG w = gcnt ASG w + gcnt SGF w /\ gcnt BGE w = gcnt AGE w /\ gcnt BPG w = gcnt APG w.
+Proof.
+  intro H. assert (Hb : ast_bad (arun AFresh w) = false) by (destruct (arun AFresh w); auto; discriminate).
+  destruct (BAL_run w Hb) as (H1 & _ & H3 & H4 & H5 & H6 & H7).
+  destruct (arun AFresh w); simpl in *; try discriminate; rewrite ?app_nil_r, ?Nat.add_0_r in *; auto 10.
+Qed.
